@@ -58,7 +58,7 @@ Definition chk_prod (c : list (list Z) * list (list Z)) : bool :=
 Fixpoint tbl_opt (t : list (Cf * Cf)) (c : Cf) : Cf :=
   match t with [] => c | (k, v) :: r => if ceqb k c then v else tbl_opt r c end.
 Inductive mbe := ESug (t : Z) (ds : list (draw Cf)) (cands : list Cf) (tbl : list (Cf * Cf))
-               | EUpd (t : Z) (c : Cf) | EFail (t : Z).
+               | EUpd (t : Z) (c : Cf) | EFail (t : Z) | ENonFinite (t : Z).
 Definition mb_case := (list Cf * nat * bool * option nat * list mbe * list (res (option Cf)))%type.
 Fixpoint mb_run_chk (s : mb_state Cf Z) (es : list mbe) : list (res (option Cf)) * bool :=
   match es with
@@ -75,6 +75,7 @@ Fixpoint mb_run_chk (s : mb_state Cf Z) (es : list mbe) : list (res (option Cf))
       end
   | EUpd t c :: r => mb_run_chk (mb_update Cf Z s t c) r
   | EFail t :: r => mb_run_chk (mb_evaluation_failed Cf Z s t) r
+  | ENonFinite t :: r => mb_run_chk (mb_update_nonfinite Cf Z s t) r
   end.
 Definition chk_mb (c : mb_case) : bool :=
   let '(pts, ninit, ad, size, evs, obs) := c in
@@ -906,7 +907,8 @@ def run_mb_case(ctx, case):
                 mi += 1
                 if np.isfinite(mv):
                     evs.append("(EUpd %s %s)" % (zlit(t), enc(tr.config)))
-                # a NaN / infinite value is rejected as model data: the trial stays pending (no model event)
+                else:       # rejected as model data: the trial stays pending (and is marked failed)
+                    evs.append("(ENonFinite %s)" % zlit(t))
             elif op == "fail":
                 t = sorted(running)[-1]
                 tr = running.pop(t)
@@ -1032,6 +1034,100 @@ def run_batch_case(ctx, case):
 
 
 # --------------------------------------------------------------------------
+# 4c. restrict_configurations: the SAME list object handed to two searchers / schedulers
+# --------------------------------------------------------------------------
+def gen_shared_case(rng):
+    import itertools
+    spec, size = small_finite_spec(rng)
+    space = build_space(spec)
+    keys = list(space)
+    allc = [dict(zip(keys, vals)) for vals in itertools.product(*[enum_values(space[k]) for k in keys])]
+    rng.shuffle(allc)
+    return dict(kind="shared", spec=spec, restrict=allc[:rng.randint(2, max(2, min(6, size - 1)))],
+                via=rng.choice(["random-direct", "fifo-random", "fifo-bayesopt", "hb-stopping-random"]),
+                pts=rng.choice([[], None]), seed=rng.randrange(10 ** 6), metrics=gen_metrics(rng, 12))
+
+
+def run_shared_case(ctx, case):
+    import copy as _copy
+    from syne_tune.optimizer.schedulers import FIFOScheduler, HyperbandScheduler
+    from syne_tune.optimizer.schedulers.searchers import RandomSearcher
+    from syne_tune.backend.trial_status import Trial
+    quiet()
+    space = build_space(case["spec"])
+    shared = [dict(c) for c in case["restrict"]]       # ONE list object for both consumers
+    before = _copy.deepcopy(shared)
+    member = {hp_tuple(space, c) for c in before}
+    via, viols = case["via"], []
+
+    def make(seed):
+        common = dict(metric="m", mode="min", random_seed=seed, points_to_evaluate=case["pts"])
+        if via == "random-direct":
+            return RandomSearcher(space, metric="m", points_to_evaluate=case["pts"], random_seed=seed,
+                                  restrict_configurations=shared)
+        if via == "fifo-random":
+            return FIFOScheduler(space, searcher="random", search_options=dict(debug_log=False, restrict_configurations=shared), **common)
+        if via == "fifo-bayesopt":
+            return FIFOScheduler(space, searcher="bayesopt", search_options=dict(
+                FAST_GP, num_init_random=2, restrict_configurations=shared), **common)
+        return HyperbandScheduler(space, searcher="random", type="stopping", resource_attr="epoch", max_t=3, grace_period=1,
+                                  reduction_factor=3, search_options=dict(debug_log=False, restrict_configurations=shared),
+                                  **common)
+    for who in ("first", "second"):
+        sig = dict(searcher=via, shared_list=True, consumer=who, points_to_evaluate="empty" if case["pts"] == [] else "default")
+        try:
+            with contextlib.redirect_stdout(io.StringIO()):
+                obj = make(case["seed"] + (0 if who == "first" else 1))
+        except AssertionError:
+            # the constructor refuses an empty list: the previous consumer emptied the caller's list
+            viols.append((dict(sig, event="none_before_restricted_set_exhausted", constructor_rejected_list=True),
+                          "%s consumer cannot be built: the caller's restrict_configurations has %d of %d entries left" % (
+                              who, len(shared), len(before))))
+            break
+        with contextlib.redirect_stdout(io.StringIO()):
+            got, none_seen, raised = [], False, None
+            for i in range(len(before) + 3):
+                if via == "random-direct":
+                    c = obj.get_config(trial_id=str(i))
+                else:
+                    try:
+                        sg = obj.suggest(i)
+                    except (ValueError, AttributeError, IndexError, KeyError) as e:
+                        raised = type(e).__name__
+                        break
+                    c = None if sg is None else sg.config
+                    if sg is not None:
+                        tr = Trial(trial_id=i, config=sg.config, creation_time=T0)
+                        obj.on_trial_add(tr)
+                        res = {"m": float(case["metrics"][i % 12]) if not isinstance(case["metrics"][i % 12], str) else 0.5,
+                               "epoch": 1}
+                        if obj.on_trial_result(tr, res) == "CONTINUE":
+                            obj.on_trial_complete(tr, res)
+                        else:
+                            obj.on_trial_remove(tr)
+                if c is None:
+                    none_seen = True
+                    break
+                got.append(hp_tuple(space, c))
+        if any(t not in member for t in got):
+            viols.append((dict(sig, event="suggestion_outside_restricted_set"), "%s consumer suggested %s, restricted set %s" % (who, got, sorted(member, key=repr))))
+        elif len(set(got)) != len(got):
+            viols.append((dict(sig, event="repeated_configuration"), "%s consumer suggested %s" % (who, got)))
+        elif raised is not None:
+            viols.append((dict(sig, event="exception_instead_of_nothing_left" if set(got) == member else "exception_before_restricted_set_exhausted",
+                               exception=raised),
+                          "%s consumer: suggest raised %s after %s of the restricted set %s" % (who, raised, got, sorted(member, key=repr))))
+        elif none_seen and set(got) != member:
+            viols.append((dict(sig, event="none_before_restricted_set_exhausted"),
+                          "%s consumer answered None after %s of the restricted set %s" % (who, got, sorted(member, key=repr))))
+        if shared != before:
+            viols.append((dict(sig, event="caller_list_modified"),
+                          "restrict_configurations of the caller changed from %d to %d entries after the %s consumer" % (
+                              len(before), len(shared), who)))
+    return viols
+
+
+# --------------------------------------------------------------------------
 # 5. _postprocess_config unit cases
 # --------------------------------------------------------------------------
 def run_pp_case(ctx, rng):
@@ -1136,6 +1232,7 @@ def run(ctx, replay=None):
             cases += [gen_sched_case(rng, kind, True) for _ in range(ctx.n(8 if gp else 30, 30 if gp else 250))]
         cases += [gen_mb_case(rng, True) for _ in range(ctx.n(24, 100))]
         cases += [gen_batch_case(rng) for _ in range(ctx.n(40, 300))]
+        cases += [gen_shared_case(rng) for _ in range(ctx.n(40, 300))]
         # directed: initial points ON the bounds of domains whose bounds do not round-trip through log/exp (DEHB keeps
         # them encoded), and a box-corner local optimiser on such domains (decoding of encoded 0.0 / 1.0)
         odd = [["lr", "dom", ["loguniform", 1e-6, 0.1]], ["wd", "dom", ["loguniform", 1e-5, 1e-2]],
@@ -1200,6 +1297,13 @@ def run(ctx, replay=None):
                 report(ctx, viol, case, "GPFIFOSearcher")
             mb_terms.append(term)
             mb_meta.append(case)
+        elif k == "shared":
+            viols = run_shared_case(ctx, case)
+            ctx.count(case, nontrivial=True)
+            ctx.h("shared_restrict_list", "%s pts=%s" % (case["via"], "empty" if case["pts"] == [] else "default"))
+            for sig, text in viols:
+                ctx.violation("property", "%s (shared restrict_configurations): %s — %s" % (case["via"], sig["event"], text),
+                              case=case, signature=sig)
         elif k == "batch":
             term, viol, nb = run_batch_case(ctx, case)
             ctx.count(case, nontrivial=case["left"] < case["batch_size"] or nb >= 2)
